@@ -394,7 +394,10 @@ def _props_signals(w, add, el, t):
         add(pe + '@construct-only', bool(f & 8))
         ty = w.tyrep(p['type'])
         add(pe + '@type', ty if ty is not None else '?', 'M' if ty is not None else 'U')
-        add(pe + '@default-value', default_text(p.get('default')))
+        dv = default_text(p.get('default'))
+        # gir-1.2.rnc: "if missing, the default value is zero for integer types, and null for pointer types":
+        # an empty text reported for a non-string type (flags without a set bit) says the same as no attribute
+        add(pe + '@default-value', dv, 'U' if (dv == '' and p['type'] != 'gchararray') else 'M')
     add(el + '/props', sorted(names))
     names = []
     for s in t.get('signals', ()):
